@@ -318,3 +318,154 @@ func Verif_C12_NumericRendering() {
 func ss17(x, y float64) *sorted_set.SortedSet {
 	return sorted_set.NewSortedSet([]sorted_set.MemberParam{{Value: "a", Score: sorted_set.Score(x)}, {Value: "b", Score: sorted_set.Score(y)}})
 }
+
+// c12OtherCommands: every command and subcommand of the connection, pubsub, admin and acl modules, from
+// the real table, except those that touch files or plugins (MODULE *, SAVE, REWRITEAOF, ACL LOAD/SAVE).
+func c12OtherCommands(s *SugarDB, module string) [][]string {
+	var out [][]string
+	for _, c := range s.commands {
+		if c.Module != module || c.Command == "module" || c.Command == "save" || c.Command == "rewriteaof" {
+			continue
+		}
+		if len(c.SubCommands) == 0 {
+			out = append(out, []string{c.Command})
+			continue
+		}
+		for _, sc := range c.SubCommands {
+			if c.Command == "acl" && (sc.Command == "load" || sc.Command == "save") {
+				continue
+			}
+			out = append(out, []string{c.Command, sc.Command})
+		}
+	}
+	return out
+}
+
+// c12Other: a command of one of those modules sent by a TCP client with arbitrary arguments (arbitrary
+// strings - as channel names, patterns, user names, rules, passwords - and small integers): the server
+// does not crash, and whatever it replies is one well-formed RESP value (for the subscribe family: the
+// bytes written to the connection are whole values).
+func c12Other(module string) {
+	s := verifServer()
+	cmds := c12OtherCommands(s, module)
+	c := cmds[vr.Choose("cmd", len(cmds))]
+	conn := verifTCPConn(s, 0)
+	x, y := vr.Tok("x"), vr.Tok("y")
+	n := vr.Int("n")
+	vr.Assume(n >= -2 && n <= 3)
+	argv := append([]string{}, c...)
+	numericOK := c[0] != "auth" && c[0] != "hello" // (the digest model takes opaque passwords only)
+	switch vr.Choose("shape", 7) {
+	case 1:
+		argv = append(argv, x)
+	case 2:
+		argv = append(argv, x, y)
+	case 3:
+		vr.Assume(numericOK)
+		argv = append(argv, strconv.Itoa(n))
+	case 4:
+		vr.Assume(numericOK)
+		argv = append(argv, x, strconv.Itoa(n))
+	case 5:
+		vr.Assume(numericOK)
+		argv = append(argv, strconv.Itoa(n), strconv.Itoa(n))
+	case 6:
+		argv = append(argv, x, y, x)
+	}
+	reply, err, panicked := verifRunTCP(s, conn, argv...)
+	vr.Quiesce()
+	vr.Assert(!panicked, "C12."+module+".no_crash")
+	if panicked {
+		return
+	}
+	if err == nil && len(reply) > 0 {
+		r := vr.Decode(reply)
+		vr.Assert(r.OK, "C12."+module+".reply_is_one_wellformed_value")
+	}
+	vr.Reach("end")
+}
+
+// Verif_C12_Admin: the admin commands with concrete argument vectors (COMMAND LIST walks the whole command
+// table for every filter: opaque filter operands would fork once per command).
+func Verif_C12_Admin() {
+	s := verifServer()
+	conn := verifTCPConn(s, 0)
+	argvs := [][]string{
+		{"COMMANDS"}, {"COMMAND"}, {"COMMAND", "COUNT"}, {"COMMAND", "DOCS"}, {"COMMAND", "LIST"},
+		{"COMMAND", "LIST", "FILTERBY"}, {"COMMAND", "LIST", "FILTERBY", "ACLCAT"}, {"COMMAND", "LIST", "FILTERBY", "ACLCAT", "fast"},
+		{"COMMAND", "LIST", "FILTERBY", "PATTERN", "z*"}, {"COMMAND", "LIST", "FILTERBY", "PATTERN", "[a"},
+		{"COMMAND", "LIST", "FILTERBY", "PATTERN", "{x"}, {"COMMAND", "LIST", "FILTERBY", "PATTERN", ""},
+		{"COMMAND", "LIST", "FILTERBY", "MODULE", "set"}, {"COMMAND", "LIST", "FILTERBY", "MODULE"}, {"COMMAND", "LIST", "FILTERBY", "NOPE", "x"},
+		{"COMMAND", "LIST", "x", "y", "z", "w"}, {"COMMAND", "NOPE"}, {"LASTSAVE"}, {"LASTSAVE", "x"}, {"COMMAND", "COUNT", "x"},
+	}
+	argv := argvs[vr.Choose("argv", len(argvs))]
+	reply, err, panicked := verifRunTCP(s, conn, argv...)
+	vr.Assert(!panicked, "C12.admin.no_crash")
+	if panicked {
+		return
+	}
+	if err == nil && len(reply) > 0 {
+		vr.Assert(vr.Decode(reply).OK, "C12.admin.reply_is_one_wellformed_value")
+	}
+	vr.Reach("end")
+}
+
+func Verif_C12_Connection() { c12Other(constants.ConnectionModule) }
+func Verif_C12_PubSub()     { c12Other(constants.PubSubModule) }
+
+// Verif_C12_ACL: the ACL subcommands with argument vectors that exercise every branch of their parsers:
+// missing and surplus arguments, empty strings, every rule prefix of ACL SETUSER alone and followed by an
+// arbitrary string (also one that is not a valid pattern), unknown users and subcommands.
+func Verif_C12_ACL() {
+	s := verifServer()
+	conn := verifTCPConn(s, 0)
+	t := vr.Tok("t")
+	u := "user"
+	// (the SETUSER rule parser looks at its arguments byte by byte: concrete operands here)
+	rt := "op:*"
+	rules := []string{
+		"", "~", "~" + rt, "~[", "%", "%R~", "%R~" + rt, "%W~{", "%RW~" + rt, "%RW~[", "+&", "+&" + rt, "-&[", "&", ">", ">" + rt, "<", "<" + rt,
+		"#", "#" + rt, "!", "!" + rt, "+@", "+@read", "-@", "-@x", "+", "+get", "-", "-x", "@", "on", "off", "nopass", "resetpass", "nocommands",
+		"resetkeys", "nokeys", "resetchannels", "allkeys", "allchannels", "allcommands", "allcategories", "reset", rt,
+	}
+	var argv []string
+	switch vr.Choose("sub", 12) {
+	case 0:
+		argv = []string{"ACL"}
+	case 1:
+		argv = [][]string{{"ACL", "CAT"}, {"ACL", "CAT", "read"}, {"ACL", "CAT", t}, {"ACL", "CAT", "a", "b"}}[vr.Choose("v", 4)]
+	case 2:
+		argv = [][]string{{"ACL", "USERS"}, {"ACL", "USERS", t}}[vr.Choose("v", 2)]
+	case 3:
+		argv = [][]string{{"ACL", "SETUSER"}, {"ACL", "SETUSER", ""}, {"ACL", "SETUSER", u}, {"ACL", "SETUSER", "default"}}[vr.Choose("v", 4)]
+	case 4:
+		argv = []string{"ACL", "SETUSER", u, rules[vr.Choose("rule", len(rules))]}
+	case 5:
+		argv = []string{"ACL", "SETUSER", "default", rules[vr.Choose("rule", len(rules))], rules[vr.Choose("rule2", len(rules))]}
+	case 6:
+		argv = [][]string{{"ACL", "GETUSER"}, {"ACL", "GETUSER", "default"}, {"ACL", "GETUSER", t}, {"ACL", "GETUSER", "a", "b"}}[vr.Choose("v", 4)]
+	case 7:
+		argv = [][]string{{"ACL", "DELUSER"}, {"ACL", "DELUSER", "default"}, {"ACL", "DELUSER", t, "default"}}[vr.Choose("v", 3)]
+	case 8:
+		argv = [][]string{{"ACL", "WHOAMI"}, {"ACL", "WHOAMI", t}}[vr.Choose("v", 2)]
+	case 9:
+		argv = [][]string{{"ACL", "LIST"}, {"ACL", "LIST", t}}[vr.Choose("v", 2)]
+	case 10:
+		argv = []string{"ACL", t}
+	case 11:
+		// a user with rules, then listed
+		// (one rule operand is an arbitrary string that may contain CR/LF: the user name itself)
+		u = "user:" + vr.Tok("uname")
+		verifRunTCP(s, conn, "ACL", "SETUSER", u, "on", ">"+t, "~app:*", "%R~"+rt, "+&news", "+@read", "-flushall")
+		argv = [][]string{{"ACL", "GETUSER", u}, {"ACL", "LIST"}, {"ACL", "USERS"}, {"ACL", "DELUSER", u}}[vr.Choose("v", 4)]
+	}
+	reply, err, panicked := verifRunTCP(s, conn, argv...)
+	vr.Assert(!panicked, "C12.acl.no_crash")
+	if panicked {
+		return
+	}
+	if err == nil && len(reply) > 0 {
+		vr.Assert(vr.Decode(reply).OK, "C12.acl.reply_is_one_wellformed_value")
+	}
+	vr.Reach("end")
+}
